@@ -1,12 +1,15 @@
 package rules
 
 import (
+	_ "embed"
+	"encoding/json"
 	"fmt"
 	"go/ast"
 	"go/token"
 	"go/types"
 	"os"
 	"path/filepath"
+	"regexp/syntax"
 	"strings"
 
 	"golang.org/x/tools/go/ssa"
@@ -1652,6 +1655,108 @@ func (c *Ctx) RuleCtorNonNil() *Result {
 			res.bad(key, c.P.FnPos(fn), fmt.Sprintf("%s returns nil at %s; it has no error result and its callers use what it returns without a test: the next access is a nil-pointer dereference (a runtime fault instead of a diagnostic)", load.FnName(fn), bad))
 		} else {
 			res.ok(key, c.P.FnPos(fn), "every return yields an allocated value")
+		}
+	}
+	return res
+}
+
+//go:embed patterns_ref.json
+var patternsRefJSON []byte
+
+// greedSignature: the greedy/lazy flags of the quantifiers of a pattern, in order.
+func greedSignature(re *syntax.Regexp) string {
+	var sb strings.Builder
+	var walk func(r *syntax.Regexp)
+	walk = func(r *syntax.Regexp) {
+		switch r.Op {
+		case syntax.OpStar, syntax.OpPlus, syntax.OpQuest, syntax.OpRepeat:
+			if r.Flags&syntax.NonGreedy != 0 {
+				sb.WriteByte('l')
+			} else {
+				sb.WriteByte('g')
+			}
+		}
+		for _, s := range r.Sub {
+			walk(s)
+		}
+	}
+	walk(re)
+	return sb.String()
+}
+
+// RulePatternPin: the patterns named are, as languages, what they were when
+// they were reviewed (patterns_ref.json): the same lines are accepted, every
+// capture group has the same language, and the quantifiers keep their
+// greediness. The text of a pattern is free; what it matches and how it
+// splits a line is not, because the properties wired to this rule were argued
+// from exactly that.
+func (c *Ctx) RulePatternPin(names ...string) *Result {
+	res := &Result{Rule: "PATTERN-PIN", MinInst: len(names)}
+	var ref struct {
+		Patterns map[string]string `json:"patterns"`
+	}
+	if err := json.Unmarshal(patternsRefJSON, &ref); err != nil {
+		res.Instances++
+		res.undecided("reference", "-", "patterns_ref.json does not parse: "+err.Error())
+		return res
+	}
+	none := func(r rune) bool { return false }
+	for _, name := range names {
+		res.Instances++
+		key := "regex:" + strings.TrimPrefix(name, "regex.") + " as reviewed"
+		want, ok := ref.Patterns[name]
+		if !ok {
+			res.undecided(key, "-", "no reviewed reference for "+name)
+			continue
+		}
+		p := c.Rx().ByName(name)
+		if p == nil {
+			res.undecided(key, "-", name+" is not a resolvable constant pattern")
+			continue
+		}
+		wre, err := rx.Parse(want)
+		if err != nil {
+			res.undecided(key, p.Pos, "reference does not parse: "+err.Error())
+			continue
+		}
+		var problems []string
+		diff := func(what string, a, b *rx.Lang) {
+			q := &rx.Query{Langs: []*rx.Lang{a, b}, Excluded: none, Accept: func(m []bool) bool { return m[0] != m[1] }}
+			if r, err := q.Run(); err != nil {
+				problems = append(problems, what+": "+err.Error())
+			} else if r.Found {
+				problems = append(problems, fmt.Sprintf("%s differs from the reviewed pattern on %q", what, r.Witness))
+			}
+		}
+		hs, err1 := rx.Search(name, p.Re)
+		ws, err2 := rx.Search("reviewed "+name, wre)
+		if err1 != nil || err2 != nil {
+			res.undecided(key, p.Pos, "pattern does not compile for the comparison")
+			continue
+		}
+		diff("the set of lines matched", hs, ws)
+		if p.Re.MaxCap() != wre.MaxCap() {
+			problems = append(problems, fmt.Sprintf("%d capture groups instead of %d", p.Re.MaxCap(), wre.MaxCap()))
+		} else {
+			for g := 1; g <= wre.MaxCap(); g++ {
+				a, b := rx.Capture(p.Re, g), rx.Capture(wre, g)
+				if a == nil || b == nil {
+					continue
+				}
+				ha, e1 := rx.Full(fmt.Sprintf("group %d", g), a)
+				hb, e2 := rx.Full(fmt.Sprintf("reviewed group %d", g), b)
+				if e1 == nil && e2 == nil {
+					diff(fmt.Sprintf("what group %d can capture", g), ha, hb)
+				}
+			}
+		}
+		if gs, gw := greedSignature(p.Re), greedSignature(wre); gs != gw && len(problems) == 0 {
+			problems = append(problems, "a quantifier changed between greedy and lazy: the same lines match but the groups split them differently")
+		}
+		if len(problems) > 0 {
+			res.bad(key, p.Pos, fmt.Sprintf("%s is now %s; %s", name, p.Src, strings.Join(problems, "; ")))
+		} else {
+			res.ok(key, p.Pos, "same lines matched, same group languages, same greediness as the reviewed pattern (language comparison by product automata)")
 		}
 	}
 	return res
